@@ -222,6 +222,10 @@ def scan(f, pos):
             # string, we need to read more data.
             s = l_ + 1
             if s > len(data) - 8:
+                if len(data) < 8096:
+                    # End of file: fewer than 8 bytes follow the period,
+                    # there is no room for a transaction length.
+                    return 0
                 pos += l_
                 break
             tl = u64(data[s:s + 8])
